@@ -40,6 +40,14 @@ def set (h : Header) (k v : String) : Header :=
   if h.any (fun e => e.1 == k) then h.map (fun e => if e.1 == k then (e.1, [v]) else e)
   else h ++ [(k, [v])]
 
+/-- `h[k][0] = v` when `h[k]` is non-empty (in-place overwrite of the first value) -/
+def set0 (h : Header) (k v : String) : Header :=
+  h.map (fun e => if e.1 == k then (e.1, match e.2 with | [] => [] | _ :: vs => v :: vs) else e)
+
+/-- `h[k][len-1] = v` when `h[k]` is non-empty (in-place overwrite of the last value) -/
+def setLast (h : Header) (k v : String) : Header :=
+  h.map (fun e => if e.1 == k then (e.1, match e.2 with | [] => [] | vs => vs.dropLast ++ [v]) else e)
+
 /-- `Header.Del` -/
 def del (h : Header) (k : String) : Header := h.filter (fun e => e.1 != k)
 
@@ -85,12 +93,16 @@ inductive HdrOp where
   | set (k v : String)
   | add (k v : String)
   | del (k : String)
+  | set0 (k v : String)
+  | setLast (k v : String)
 deriving Repr, DecidableEq
 
 def HdrOp.apply (h : Header) : HdrOp → Header
   | .set k v => Header.set h k v
   | .add k v => Header.add h k v
   | .del k => Header.del h k
+  | .set0 k v => Header.set0 h k v
+  | .setLast k v => Header.setLast h k v
 
 /-- what the protected handler does on one invocation, in this order: read from the body, change
     its copy of the request, add response headers, `WriteHeader`, `Write` calls, `Flush`, `Hijack`. -/
